@@ -1,7 +1,7 @@
 (* InterruptRunModel.v — the executors of the engine model (Nested.exec_ng: Exec.exec_basic for function nodes,
    Nested.exec_interrupt for the interrupt) satisfy the hypotheses of InterruptRun.v: the three run-level theorems hold of the
    model program the correspondence harness compares with the implementation. *)
-From HG Require Import Base Rename Engine Exec Nested NestedProofs EngineProofs InterruptProofs Samples InterruptRun.
+From HG Require Import Base Rename Engine Exec Nested NestedProofs EngineProofs InterruptProofs Samples InterruptRun GateRun.
 From stdpp Require Import gmap.
 Local Open Scope positive_scope.
 
@@ -60,3 +60,19 @@ Proof.
     exists s, s'. split; [exact Hs|]. split; [exact Hs'|]. split; [|exact V33].
     intros o [<-|[<-|[<-|[]]]]; congruence.
 Qed.
+
+(* what the harness observes of the chain's model runs: status, the FUNCTION nodes called in order (the implementation's log
+   holds an interrupt only when its handler is consulted), which of a, d, b are among the values *)
+Definition chain_obs (handler : fexp) (fuel : nat) (pv : dict val) : nat * list name * list bool :=
+  let res := execute (chain_exec handler) Async fuel chain pv in
+  let st := match fst res with RDone s => s | RFailed _ s => s | RPaused _ s => s end in
+  (match fst res with RDone _ => 0%nat | RFailed _ _ => 1%nat | RPaused _ _ => 2%nat end,
+   List.filter (fun n => negb (Pos.eqb n 15)) (map fst (concat (snd res))),
+   map (fun o => match vals st !! o with Some _ => true | None => false end) [31; 32; 33]).
+
+Fixpoint bools_eqb (p q : list bool) : bool :=
+  match p, q with [], [] => true | a1 :: p', a2 :: q' => Bool.eqb a1 a2 && bools_eqb p' q' | _, _ => false end.
+
+Definition chain_obs_eqb (a b : nat * list name * list bool) : bool :=
+  let '(s1, l1, v1) := a in let '(s2, l2, v2) := b in
+  Nat.eqb s1 s2 && GateRun.names_eqb l1 l2 && bools_eqb v1 v2.
